@@ -26,6 +26,10 @@ def gen_world(rng, kinds, big=False):
         rng.shuffle(classes)
         w.update(N=len(classes), classes=classes, nc=nc, spc=rng.choice([None, None, 1, 2, 3, 5, 7, 11]), shuffle=rng.random() < 0.7,
                  form=rng.choice(["list", "tensor", "numpy", "persample"]))
+        if rng.random() < 0.25:
+            old = list(w["classes"])
+            rng.shuffle(old)
+            w["relabel"] = dict(old=old, touch_root_first=rng.random() < 0.7)
     elif kind == "weighted":
         N = max(N, 1)
         w.update(weights=[round(rng.random() + 0.01, 4) for _ in range(N)], size=rng.choice([None, None, rng.randint(1, N)]))
@@ -38,11 +42,25 @@ def gen_world(rng, kinds, big=False):
         rng.shuffle(classes)
         w.update(N=N, classes=classes, num_labeled=rng.choice([1, 1, 2, 3]), num_unlabeled=rng.choice([1, 1, 2, 3, 5]),
                  length_mode=rng.choice(["labeled", "unlabeled", "all"]), form=rng.choice(["list", "tensor", "numpy"]))
+        if rng.random() < 0.25:
+            old = list(classes)
+            rng.shuffle(old)
+            w["relabel"] = dict(old=old, touch_root_first=rng.random() < 0.7)
     return w
 
 
 def make_dataset(w):
     from .simdata import LabelDataset, PerSampleLabelDataset
+    if w.get("relabel") and w["kind"] in ("cb", "semi"):
+        # the labels the sampler must honour are those of a label-rewriting wrapper; the wrapped root (other labels, no bulk
+        # accessor) may already have been inspected by the library before
+        from kappadata.wrappers.dataset_wrappers.overwrite_classes_wrapper import OverwriteClassesWrapper
+        n_cls = w["nc"] if w["kind"] == "cb" else 3
+        root = PerSampleLabelDataset(w["relabel"]["old"], n_cls)
+        if w["relabel"]["touch_root_first"]:
+            from kappadata.utils.getall_as_tensor import getall_as_tensor
+            getall_as_tensor(root)
+        return OverwriteClassesWrapper(root, classes=list(w["classes"]))
     if w["kind"] in ("dist", "random", "weighted"):
         return list(range(w["N"]))
     if w["kind"] == "cb":
